@@ -97,7 +97,7 @@ Theorem c13_modelled_functions_unchanged_strings : shapes_hold fn_shapes shapes_
 Proof. exact generated_shapes_strings. Qed.
 
 (* the third-party crates the model represents by hand are pinned at the versions it was written against *)
-Theorem c13_modelled_dependencies_pinned : deps_hold lock_versions cargo_deps = true.
+Theorem c13_modelled_dependencies_pinned : deps_hold repo_lock_present lock_versions harness_lock_versions cargo_deps = true.
 Proof. exact generated_deps. Qed.
 
 (* further hand-modelled functions this property rests on *)
